@@ -492,7 +492,7 @@ def run_tlc_jobs(ctx, jobs):
     from concurrent.futures import ThreadPoolExecutor
 
     core.scratch()
-    with ThreadPoolExecutor(max_workers=len(jobs)) as ex:
+    with ThreadPoolExecutor(max_workers=min(len(jobs), 7)) as ex:   # bounded: every job is a JVM
         done = list(ex.map(_tlc_job, jobs))
     out = {}
     for label, cfg, res in done:
@@ -548,14 +548,14 @@ def run(ctx: core.Ctx):
 
     q = ctx.quick
     chain = "SymShape_chain3.cfg" if q else "SymShape_chain3t.cfg"
-    jobs = [("vacuity: Sound under AllDevs must fail", "SymShape_vacuity.cfg", dict(timeout=1200, workers=2))]
+    jobs = [("vacuity: Sound under AllDevs must fail", "SymShape_vacuity.cfg", dict(timeout=1200, workers=2, heap="1g"))]
     for cfg in [chain, "SymShape_quick.cfg"] if q else [chain, "SymShape_quick.cfg", "SymShape_thorough.cfg", "SymShape_design.cfg"]:
-        jobs.append((cfg, cfg, dict(timeout=3000, workers=8 if q else 6)))
+        jobs.append((cfg, cfg, dict(timeout=3000, workers=8 if q else 6, heap="3g")))
     nsim, num = (4, 200) if q else (12, 1000)
     for j in range(nsim):
         cfg = "SymShape_sim.cfg" if j % 2 == 0 else "SymShape_sim2.cfg"
         sd = ctx.seed * 100 + j + 1
-        jobs.append((f"{cfg} -simulate num={num} seed={sd}", cfg, dict(timeout=3000, workers=1, simulate=f"num={num}", depth=60, seed=sd)))
+        jobs.append((f"{cfg} -simulate num={num} seed={sd}", cfg, dict(timeout=3000, workers=1, simulate=f"num={num}", depth=60, seed=sd, heap="2g")))
     t0 = time.time()
     results = run_tlc_jobs(ctx, jobs)
     ctx.set("tlc_phase_s", round(time.time() - t0, 1))
